@@ -346,7 +346,9 @@ Fixpoint monob (t : Z) (ops : list op) : bool :=
     permitted -> handler runs, then the results recorded are exactly the
     [wrap_records]: the straight-line record when the handler returns, the deferred
     one (guarded by the [panicked] flag) when it panics. *)
-Inductive houtcome := HOk | HErr | HPanic.
+(** how the handler ends: returns nil / an error, panics, panics with a nil value
+    (recover() = nil under go 1.17 semantics), or terminates its goroutine (runtime.Goexit) *)
+Inductive houtcome := HOk | HErr | HPanic | HPanicNil | HGoexit.
 Inductive wresult := WShort | WNil | WErr | WPanic.
 
 (** straight-line part of the wrapped function after the admission: the value of the
@@ -354,6 +356,8 @@ Inductive wresult := WShort | WNil | WErr | WPanic.
 Definition wrap_body (h : houtcome) : bool * list bool :=
   match h with
   | HPanic => (true, [])          (* handler panics: the flag is still true, nothing recorded yet *)
+  | HPanicNil => (true, [])       (* the deferred function does not look at recover(): same path *)
+  | HGoexit => (true, [])         (* Goexit runs the deferred functions as well *)
   | HOk => (false, [false])       (* RecordResult(id, err != nil, ..); panicked = false *)
   | HErr => (false, [true])
   end.
@@ -366,7 +370,7 @@ Definition wrap_records (h : houtcome) : list bool :=
   let '(p, recs) := wrap_body h in recs ++ wrap_deferred p.
 
 Definition wrap_result (h : houtcome) : wresult :=
-  match h with HOk => WNil | HErr => WErr | HPanic => WPanic end.
+  match h with HOk => WNil | HErr => WErr | _ => WPanic end.
 
 Fixpoint cb_records (pol : policy) (now id : Z) (errs : list bool) (c : cb) : cb :=
   match errs with
